@@ -376,19 +376,51 @@ def leg_ints(ck, T, stats):
     for s in rej:
         ck.nontrivial(("int", s))
     stats["ints"] = dict(accepted=len(ok), rejected=len(rej))
-    # negated literals: the written value of  -digits  (the sign is an operator applied to the literal)
-    neg = (("9223372036854775807", -(2**63 - 1)), ("9223372036854775808", -(2**63)), ("9223372036854775809", None), ("0", 0))
-    outs = T.impl(["P " + hx("Die Zahl z ist -%s." % s) for s, _ in neg])
-    for (s, v), il in zip(neg, outs):
-        src = "Die Zahl z ist -%s." % s
+    # signed literals  -digits : every value in [-2^63, 2^63-1] must be obtained, everything below rejected
+    mags = {str(v) for v in (0, 1, 42, 2**31, 2**62, 2**63 - 2, 2**63 - 1, 2**63, 2**63 + 1, 2**63 + 2, 2**64 - 1, 2**64, 10**19, 10**18, 2**65)}
+    mags |= {"922337203685477580" + str(d) for d in range(10)}
+    mags |= {"0" * z + m for m in list(mags) for z in (1, 3)}
+    for _ in range(400 if ck.quick else 5000):
+        mags.add(str(2**63 + ck.rng.randint(-10**4, 10**4)))
+    mags = sorted(mags, key=lambda m: (len(m), m))
+    outs = T.impl(["P " + hx("Die Zahl z ist -%s." % m) for m in mags])
+    mod = T.mod(["N " + m for m in mags])
+    ck.count(len(mags))
+    for m, il, ml in zip(mags, outs, mod):
+        src = "Die Zahl z ist -%s." % m
         pr = parse_P(il)
-        ck.count()
+        v = -int(m)
         rep = dict(source=src, source_hex=hx(src), implementation=il, how="litx: P <hex>")
-        if v is None:
-            if pr is None or pr[0] == 0:
-                viol(ck, "negint-range", "int literal -%s out of range accepted" % s, "%r: %s" % (src, il), rep)
-        elif pr is None or pr[0] != 0 or pr[2] != ["-I:%d" % -v]:
-            viol(ck, "negint-reject", "int literal -%s rejected" % s, "%r is within the 64-bit range (value %d) but: %s" % (src, v, il), rep)
+        got = None      # value of the initialiser: IntLit (the smallest Zahl) or negation of an IntLit
+        if pr is not None and len(pr[2]) == 1:
+            it = pr[2][0]
+            if it.startswith("-I:"):
+                got = -int(it[3:])
+            elif it.startswith("I:"):
+                got = int(it[2:])
+        if v >= -2**63:
+            if pr is None or pr[0] != 0 or got != v:
+                viol(ck, "negint-reject", "int literal -%s rejected" % m if (pr is None or pr[0]) else "int literal -%s evaluates wrongly" % m,
+                     "%r is within the 64-bit range (value %d) but: %s" % (src, v, il), rep)
+                continue
+        else:
+            if pr is None or pr[0] == 0 or T.MAL not in pr[1]:
+                viol(ck, "negint-range", "int literal -%s out of range accepted" % m, "%r: %s but %d < -2^63" % (src, il, v), rep)
+                continue
+        want = "N %d 0" % v if v >= -2**63 else "N 0 1"
+        if ml != want or (pr is not None and (pr[0], got) != ((0, v) if v >= -2**63 else (1, 0))):
+            stats["model_mismatch"].append(("negated int", "-" + m, il, ml))
+        ck.nontrivial(("negint", m))
+    stats["ints"]["signed"] = len(mags)
+    # the smallest Zahl inside an expression
+    src = "Die Zahl z ist -9223372036854775808 plus 1."
+    il = T.impl(["P " + hx(src)])[0]
+    pr = parse_P(il)
+    ck.count()
+    import re as _re
+    if pr is None or pr[0] != 0 or len(pr[2]) != 1 or not _re.fullmatch(r"\(I:-9223372036854775808,op\d+,I:1\)", pr[2][0]):
+        viol(ck, "negint-expr", "int literal -9223372036854775808 inside an expression parses wrongly", "%r: %s" % (src, il),
+             dict(source=src, source_hex=hx(src), implementation=il, how="litx: P <hex>"))
 
 
 def float_cases(ck):
@@ -561,6 +593,9 @@ def leg_e2e(ck, b, texts, stats, corpus=()):
     for s in ints:
         items.append(("int", "Schreibe die Zahl %s." % s, str(int(s)).encode(), s))
     items.append(("int", "Schreibe die Zahl -9223372036854775807.", b"-9223372036854775807", "-9223372036854775807"))
+    items.append(("int", "Schreibe die Zahl -9223372036854775808.", b"-9223372036854775808", "-9223372036854775808"))
+    items.append(("int", "Schreibe die Zahl (-9223372036854775808 plus 1).", b"-9223372036854775807", "(-9223372036854775808 plus 1)"))
+    items.append(("int", "Schreibe die Zahl -09223372036854775808.", b"-9223372036854775808", "-09223372036854775808"))
     ex, rnd, hard = float_cases(ck)
     hs = [s for s in hard if len(s) < 400]
     rng.shuffle(hs)
@@ -845,7 +880,7 @@ def main():
     ck.sample(dict(literal='"a\\n\\\\n\\"ä"', parser="S:610a5c6e22c3a4", model="S 1 .. 0 610a5c6e22c3a4 0"))
     ck.sample(dict(literal="9223372036854775808", parser="P 1 1005 I:0", model="I 0 1"))
     ck.sample(dict(literal="0,1", parser="F:3fb999999999999a", model="F 3fb999999999999a 0"))
-    ck.finish("theorems full: strings, chars, ints, decimals (correct rounding proved against Flocq); refuted: -2^63 not writable; "
+    ck.finish("theorems full: strings, chars, signed and unsigned ints, decimals (correct rounding proved against Flocq); none refuted; "
               "codegen/runtime of literals only by the compiled leg")
 
 
